@@ -5,6 +5,9 @@ includes the working tree's cmake/cminx.cmake and calls cminx_gen_rst(); the
 peer behind CMINX_EXECUTABLE is either a recording stub with a scripted failure
 (simulated party, fault injection) or the working-tree CLI (real party, output
 tree compared with a direct invocation).
+
+Replay spec: {"mode": "stub"|"real", "driver": "script"|"project", "files", "input", "input_kind", "output", "extra": [...],
+ "cwd", "plan": ok|exit:N|kill:N|stderr|missing|noexec|real, "second": {"output","extra"}|null, "twice": bool}
 """
 import os
 import posixpath
